@@ -369,7 +369,8 @@ Section FixedEraseRep.
   Theorem shrink_fixed_rep to from m0 : (to < from)%nat -> (from <= n)%nat ->
     (forall k, (k < to \/ from <= k)%nat -> (k < n)%nat -> elem_at L m0 (S * Z.of_nat k) (nth k l [])) ->
     let v' := resize L (fst (move_forward L (set_mem v m0) (Z.of_nat from) (Z.of_nat to))) (Z.of_nat (n - (from - to))) in
-    Rep L v' (firstn to l ++ skipn from l) /\ v_cap v' = v_cap v /\ v_fixed v' = v_fixed v.
+    Rep L v' (firstn to l ++ skipn from l) /\ v_cap v' = v_cap v /\ v_fixed v' = v_fixed v /\
+    v_bid v' = v_bid v /\ v_stride v' = v_stride v.
   Proof.
     intros Htf Hfn Hm0. cbv zeta. destruct fixed_loc as (Hcnt & Hoffs & Hst).
     unfold move_forward. rewrite Hnt.
@@ -391,7 +392,7 @@ Section FixedEraseRep.
     set (vt := resize L (fst (move_forward_triv L v (Z.of_nat from) (Z.of_nat to))) (Z.of_nat (n - (from - to)))) in *.
     assert (Evn : resize L (set_mem v mf) (Z.of_nat (n - (from - to))) = set_mem vt mf).
     { unfold vt, resize, move_forward_triv. rewrite Hv. cbn [andb fst]. reflexivity. }
-    rewrite Evn. split; [|unfold vt, resize, move_forward_triv; rewrite Hv; cbn [andb fst]; split; reflexivity].
+    rewrite Evn. split; [|unfold vt, resize, move_forward_triv; rewrite Hv; cbn [andb fst]; repeat split; reflexivity].
     exists offs'. apply rep_set_mem_elems; [exact R'|].
     pose proof (r_loc _ _ _ _ R') as Hl'. rewrite Hv in Hl'. destruct Hl' as (_ & Ho' & _).
     assert (Hlen' : length (firstn to l ++ skipn from l) = (n - (from - to))%nat).
@@ -409,7 +410,8 @@ Section FixedEraseRep.
   (* erase(position) with elements behind it *)
   Theorem erase_rep_fixed_nt i : (i + 1 < n)%nat ->
     let v' := fst (erase L v (Z.of_nat i)) in
-    Rep L v' (remove_range i (Datatypes.S i) l) /\ v_cap v' = v_cap v /\ v_fixed v' = v_fixed v.
+    Rep L v' (remove_range i (Datatypes.S i) l) /\ v_cap v' = v_cap v /\ v_fixed v' = v_fixed v /\
+    v_bid v' = v_bid v /\ v_stride v' = v_stride v.
   Proof.
     intros Hi. cbv zeta. unfold erase. rewrite vsize_n.
     destruct (destruct_range_fixed i 1 i (v_mem v) (le_n _) ltac:(lia)
@@ -427,7 +429,8 @@ Section FixedEraseRep.
   (* erase(first, last) with elements behind the range, and the empty range *)
   Theorem erase_range_rep_fixed_nt i j : (i <= j)%nat -> (j < n \/ i = j)%nat -> (j <= n)%nat ->
     let v' := fst (erase_range L v (Z.of_nat i) (Z.of_nat j)) in
-    Rep L v' (remove_range i j l) /\ v_cap v' = v_cap v /\ v_fixed v' = v_fixed v.
+    Rep L v' (remove_range i j l) /\ v_cap v' = v_cap v /\ v_fixed v' = v_fixed v /\
+    v_bid v' = v_bid v /\ v_stride v' = v_stride v.
   Proof.
     intros Hij Hj Hjn. cbv zeta. unfold erase_range. rewrite vsize_n.
     destruct (Nat.eq_dec i j) as [->|Hne].
@@ -437,7 +440,7 @@ Section FixedEraseRep.
       rewrite E0. rewrite Z.eqb_refl, andb_false_r. cbn [fst negb]. rewrite Z.sub_0_r.
       unfold remove_range. rewrite firstn_skipn.
       pose proof (resize_rep L Hwf v l n (ex_intro _ offs R) (le_n _)) as H. unfold n in H at 2. rewrite firstn_all in H.
-      split; [exact H|]. unfold resize. rewrite Hv. split; reflexivity.
+      split; [exact H|]. unfold resize. rewrite Hv. repeat split; reflexivity.
     - assert (Hjn' : (j < n)%nat) by lia.
       replace (Z.to_nat (Z.of_nat j - Z.of_nat i)) with (j - i)%nat by lia.
       assert (Hd : exists m0, fst (if all_dtriv L then (v, @nil ev) else destruct_range L v (Z.of_nat i) (j - i)) = set_mem v m0 /\
